@@ -1,5 +1,6 @@
 import BasicModel.Proto
 import BasicModel.Spec.IntSpec
+import BasicModel.Spec.StrSpec
 /-
   Line protocol: one request per line, one answer per line (DESIGN §6.1).
 -/
@@ -62,7 +63,28 @@ def readInt (s : String) : Option Int :=
   | 'I' :: r => (String.ofList r).toInt?
   | _ => none
 
+/-- the string functions as specified (Integer arguments only): documented result or error code -/
+def specStr (fn : String) (args : List Val) : Option (Except Nat Val) :=
+  match fn, args with
+  | "left", [.str s, .int n] => some (if n.toInt < 0 then .error Code.overflow else .ok (.str (Spec.left s n.toInt.toNat)))
+  | "right", [.str s, .int n] => some (if n.toInt < 0 then .error Code.overflow else .ok (.str (Spec.right s n.toInt.toNat)))
+  | "mid", [.str s, .int p] => some (if p.toInt ≤ 0 then .error Code.overflow else .ok (.str (Spec.mid s p.toInt.toNat none)))
+  | "mid", [.str s, .int p, .int l] =>
+    some (if l.toInt < 0 then .error Code.overflow else if p.toInt ≤ 0 then .error Code.overflow
+      else .ok (.str (Spec.mid s p.toInt.toNat (some l.toInt.toNat))))
+  | "instr", [.str x, .str y] => some (.ok (.int (Int16.ofNat (Spec.instr 1 x y))))
+  | "instr", [.int st, .str x, .str y] =>
+    some (if st.toInt ≤ 0 then .error Code.illegalFunctionCall else .ok (.int (Int16.ofNat (Spec.instr st.toInt.toNat x y))))
+  | "len", [.str s] => some (.ok (.int (Int16.ofNat s.length)))
+  | _, _ => none
+
 def answerSpec : List String → String
+  | "str" :: fn :: args => (match args.mapM readVal with
+      | none => "bad-val"
+      | some vs => match specStr fn vs with
+        | none => "no-spec"
+        | some (.ok v) => "ok " ++ showVal v
+        | some (.error c) => s!"err {c}@-:0-0;")
   | ["int", op, a, b] => (match readInt a, readInt b with
       | some a, some b => showSpecInt (Spec.intBin op a b)
       | _, _ => "bad-val")
